@@ -74,6 +74,11 @@ claimed = {
          "Policies with a literal and a directory-prefix file rule; commit graphs (linear, merged side branch, merged unrelated root) over names with space, tab, quote, backslash, control, multi-byte and glob characters, signed by the authorised developer, another developer or nobody; (i) GetFilePathsChangedByCommit / GetAllFilesInTree must return exactly the names written, (ii) full verification must reject an unauthorised non-merge change to a protected path and accept fully authorised histories.",
          "Real gitinterface and git 2.39; history written by harness plumbing with in-process signatures; few, stratified runs (process spawning is the bottleneck).",
          "DESIGN.md §6 C10"),
+ "C15": ("exploration",
+         "deterministic simulation on real git: a bare forge and two clones racing to it, harness-written diverged suffixes, torn-push and lost-ack faults through the exec hook, independent walker on both sides",
+         "Clone A wins the race to the forge; clone B holds a local-only suffix (reference entries on disjoint or overlapping refs, skip annotations on shared or its own local-only entries, propagation entries) with local refs behind/equal/ahead/diverged, then runs ReconcileLocalRSLWithRemote and Sync (overwrite flag, torn multi-ref push, lost acknowledgement). The local log must extend the remote tip and contain each local-only entry once, in order, with the same meaning (annotations remapped and still skipping); conflicts must be refused without change; Sync may only fast-forward local refs to recorded states and publish entries together with the refs they name.",
+         "Real experimental/gittuf, gitinterface and git 2.39 over local-path remotes; suffixes written by harness plumbing; few runs (process spawning is the bottleneck).",
+         "DESIGN.md §6 C15"),
 }
 
 not_applicable = {
